@@ -114,6 +114,11 @@ def top_level_arms(body, arm_rx):
 ENC_ARM = re.compile(r"Type::(\w+)\s*=>\s*\{")
 DEC_ARM = re.compile(r"Type::(\w+)\s*=>\s*match\s+canonical_type\s*\{")
 DEC_INNER = re.compile(r"VariantType::(\w+)\s*=>\s*\{")
+DEC_CATCHALL = re.compile(r"invalid_type\s*=>\s*\{")
+# (wire type, declared type) pairs that the property statements name explicitly (C04: "Int32 for
+# Int64, Float32 for Float64"): when the reader has no arm for such a pair the real `match` falls
+# into the catch-all arm of that wire type, so the generated function is that catch-all arm.
+REQUIRED_PAIRS = [("Int32", "Int64"), ("Float32", "Float64")]
 
 
 def extract_encode_arms(src):
@@ -137,10 +142,16 @@ def extract_decode_arms(src):
     e = match_brace(src, k)
     body = src[k + 1:e]
     arms = {}
+    catchall = {}
     for name, b, be in top_level_arms(body, DEC_ARM):
         inner = body[b + 1:be]
         for vname, ib, ibe in top_level_arms(inner, DEC_INNER):
             arms[(name, vname)] = inner[ib + 1:ibe]
+        for _n, ib, ibe in top_level_arms(inner, re.compile(r"(invalid_type)\s*=>\s*\{")):
+            catchall[name] = inner[ib + 1:ibe]
+    for t, v in REQUIRED_PAIRS:
+        if (t, v) not in arms and t in catchall:
+            arms[(t, v)] = "let invalid_type = VariantType::%s; /* no arm for this pair: catch-all arm of Type::%s, verbatim */ %s" % (v, t, catchall[t])
     return arms
 
 
@@ -157,7 +168,7 @@ def extract_decode_prefix(src):
     return src[start:start + m2.start()]
 
 
-SELF_RX = re.compile(r"\bself\.")
+SELF_RX = re.compile(r"\bself(\s*)\.")
 
 ENC_SHIMS = r'''
 // ---- R3 shims (encode side) -------------------------------------------------
@@ -277,6 +288,7 @@ impl DecShim {
     }
 }
 pub(crate) struct DecTypeInfo<const N: usize> {
+    pub type_id: u32,
     pub referents: [i32; N],
     pub type_name: &'static str,
 }
@@ -292,10 +304,60 @@ fn add_property(instance: &mut DecInstance, _property: &DecProp, value: Variant)
 '''
 
 
+ENC_STATE_SHIMS = r'''
+// ---- R3 shims for write_header / serialize_end (SerializerState fields they touch) -----------
+pub(crate) struct EncLen {
+    pub n: usize,
+}
+impl EncLen {
+    pub fn len(&self) -> usize {
+        self.n
+    }
+}
+pub(crate) struct EncTypeInfos {
+    pub values: EncLen,
+}
+pub(crate) struct EncState {
+    pub output: Vec<u8>,
+    pub type_infos: EncTypeInfos,
+    pub relevant_instances: EncLen,
+}
+'''
+
+
+def extract_method_body(src, name, what):
+    m = re.search(r"pub\s+fn\s+%s\s*\(&mut\s+self\)\s*->\s*Result<\(\),\s*InnerError>\s*\{" % name, src)
+    if not m:
+        raise LostAnchor("R3: %s not found in %s" % (name, what))
+    k = m.end() - 1
+    e = match_brace(src, k)
+    return src[k + 1:e]
+
+
+def gen_enc_state(ssrc):
+    out = [ENC_STATE_SHIMS]
+    for name in ("write_header", "serialize_end"):
+        body = SELF_RX.sub(r"self_\1.", extract_method_body(ssrc, name, "serializer/state.rs"))
+        out.append('''
+// R3: body of SerializerState::%(n)s, verbatim (`self.` -> `self_.`)
+fn es_%(n)s_inner(self_: &mut EncState) -> Result<(), InnerError> {%(b)s}
+pub(crate) fn es_%(n)s(self_: &mut EncState) -> Result<(), EncErr> {
+    match es_%(n)s_inner(self_) {
+        Ok(()) => Ok(()),
+        Err(e) => {
+            core::mem::forget(e);
+            Err(EncErr)
+        }
+    }
+}
+''' % {"n": name, "b": body})
+    return "\n".join(out)
+
+
 def gen_encode(arms):
     out = [ENC_SHIMS]
     for name in sorted(arms):
-        body = SELF_RX.sub("self_.", arms[name])
+        body = SELF_RX.sub(r"self_\1.", arms[name])
         out.append('''
 // R3: arm `Type::%(n)s` of serialize_properties, body verbatim
 fn enc_%(n)s_inner<'a, I>(values: I, chunk: &mut ChunkBuilder, self_: &EncShim) -> Result<(), InnerError>
@@ -385,10 +447,91 @@ pub(crate) fn ap_add_property(instance: &mut ApInstance, canonical_property: &Ap
 ''' % body
 
 
+DP_SHIMS = r'''
+// ---- R3 shims for the head of decode_prop_chunk ------------------------------------------------
+pub(crate) struct DpBuilder {
+    pub referent: Ref,
+    pub named: u8,
+}
+impl DpBuilder {
+    pub fn set_name<S: AsRef<str>>(&mut self, _name: S) {
+        self.named += 1;
+    }
+}
+pub(crate) struct DpInstance {
+    pub builder: DpBuilder,
+}
+pub(crate) struct DpMap {
+    pub keys: [i32; 2],
+    pub inst: [DpInstance; 2],
+}
+impl DpMap {
+    pub fn get_mut(&mut self, k: &i32) -> Option<&mut DpInstance> {
+        if self.keys[0] == *k {
+            return Some(&mut self.inst[0]);
+        }
+        if self.keys[1] == *k {
+            return Some(&mut self.inst[1]);
+        }
+        None
+    }
+}
+/// stands for DeserializerState.type_infos with exactly one declared class
+pub(crate) struct DpTypeInfos {
+    pub id: u32,
+    pub info: DecTypeInfo<2>,
+}
+impl DpTypeInfos {
+    pub fn get(&self, k: &u32) -> Option<&DecTypeInfo<2>> {
+        if *k == self.id {
+            Some(&self.info)
+        } else {
+            None
+        }
+    }
+}
+pub(crate) struct DpSet {
+    pub seen: u32,
+}
+impl DpSet {
+    pub fn insert(&mut self, _b: u8) -> bool {
+        self.seen += 1;
+        true
+    }
+}
+pub(crate) struct DpState {
+    pub type_infos: DpTypeInfos,
+    pub instances_by_ref: DpMap,
+    pub unknown_type_ids: DpSet,
+}
+'''
+
+
+def gen_dp_head(dsrc):
+    head = SELF_RX.sub(r"self_\1.", extract_decode_prefix(dsrc))
+    return DP_SHIMS + '''
+// R3: head of decode_prop_chunk (first statement .. just before the canonical-property lookup), verbatim
+fn dp_head_inner(mut chunk: &[u8], self_: &mut DpState, reached: &mut Option<Type>) -> Result<(), InnerError> {
+%s
+    *reached = Some(binary_type);
+    Ok(())
+}
+pub(crate) fn dp_head(chunk: &[u8], self_: &mut DpState, reached: &mut Option<Type>) -> Result<(), DecErr> {
+    match dp_head_inner(chunk, self_, reached) {
+        Ok(()) => Ok(()),
+        Err(e) => {
+            core::mem::forget(e);
+            Err(DecErr)
+        }
+    }
+}
+''' % head
+
+
 def gen_decode(arms, prefix):
     out = [DEC_SHIMS]
     for (t, v) in sorted(arms):
-        body = SELF_RX.sub("self_.", arms[(t, v)])
+        body = SELF_RX.sub(r"self_\1.", arms[(t, v)])
         out.append('''
 // R3: arm `Type::%(t)s` / `VariantType::%(v)s` of decode_prop_chunk, body verbatim
 fn dec_%(t)s_%(v)s_inner<const N: usize>(mut chunk: &[u8], type_info: &DecTypeInfo<N>, self_: &mut DecShim, property: DecProp, prop_name: String) -> Result<(), InnerError> {
@@ -422,10 +565,12 @@ def generate(scratch_repo, log):
     log.append("R3 deserializer/state.rs: %d decode arms extracted verbatim: %s"
                % (len(dec), " ".join("%s/%s" % k for k in sorted(dec))))
     text = {
-        ("rbx_binary", "src/serializer/state.rs"): gen_encode(enc),
-        ("rbx_binary", "src/deserializer/state.rs"): gen_decode(dec, None) + gen_add_property(extract_add_property(dsrc)),
+        ("rbx_binary", "src/serializer/state.rs"): gen_encode(enc) + gen_enc_state(ssrc),
+        ("rbx_binary", "src/deserializer/state.rs"): gen_decode(dec, None) + gen_add_property(extract_add_property(dsrc)) + gen_dp_head(dsrc),
     }
     log.append("R3 deserializer/state.rs: body of add_property extracted verbatim (ap_add_property)")
+    log.append("R3 serializer/state.rs: bodies of write_header and serialize_end extracted verbatim (es_*)")
+    log.append("R3 deserializer/state.rs: head of decode_prop_chunk (up to the canonical-property lookup) extracted verbatim (dp_head)")
     p = os.path.join(scratch_repo, "rbx_reflection", "src", "lib.rs")
     with open(p, "a") as fh:
         fh.write("\n#[cfg(kani)]\npub use migration::__verif::mk_migration;\n")
